@@ -72,7 +72,7 @@ def programs(draw):
         st.tuples(st.just('unblock'), st.sampled_from(['c', 's'])),
     )
     # "same read as the request": request(n) right after start, before anything was delivered
-    macro = st.tuples(st.integers(1, 3), st.sampled_from([1, 2, 5])).map(
+    macro = st.tuples(st.integers(1, 3), st.sampled_from([1, 2, 5, gen.MAXN])).map(
         lambda a: [('start',)] + [('req', -1, 'resp', a[1])] * a[0])
     chunks = draw(st.lists(st.one_of(op.map(lambda o: [o]), op.map(lambda o: [o]), op.map(lambda o: [o]), macro),
                            min_size=2, max_size=24))
@@ -100,6 +100,15 @@ def programs(draw):
             inter[i]['src'] = dict(inter[i]['src'], els=[[2, 0]] * 6)
         ops += [['tick', 4], ['cancel', i, 'req'], ['tick', draw(st.integers(1, 3))], ['req', i, 'resp', draw(st.integers(1, 3))],
                 ['tick', 4], ['req', i, 'resp', draw(st.integers(1, 8))], ['tick', 12]]
+        heal_credit = False
+    elif any((i_.get(key) or {}).get('kind', '').endswith('bp') for i_ in inter for key in ('src', 'rsrc')) and \
+            draw(st.integers(0, 1)) == 0:
+        # a maximal grant next to another one, for a back-pressure-aware Rx source (the grants add up beyond 2^31 - 1)
+        cands = [(j, key) for j, i_ in enumerate(inter) for key in ('src', 'rsrc') if (i_.get(key) or {}).get('kind', '').endswith('bp')]
+        i, key = draw(st.sampled_from(cands))
+        d = 'resp' if key == 'src' else 'req'
+        first, second = draw(st.sampled_from([(gen.MAXN, 3), (1, gen.MAXN), (gen.MAXN, gen.MAXN)]))
+        ops += [['tick', 3], ['req', i, d, first], ['req', i, d, second], ['tick', 20]]
         heal_credit = False
     elif draw(st.integers(0, 2)) == 0:
         # the last word on credit: a grant, a second one while the first is still being served, then silence - everything
